@@ -17,6 +17,7 @@ images of sampled histories (PARTIAL).
 -/
 import GoNfsd.Props.C04
 import GoNfsd.Lemmas.BlockMap
+import GoNfsd.Lemmas.ShrinkTree
 
 namespace GoNfsd.Props.C05
 open GoNfsd.Model.Fsck GoNfsd.Gen.Consts GoNfsd.Gen.Super GoNfsd.Props.C04
@@ -174,5 +175,129 @@ theorem short_write_covers_failed_block (s : S) (ino : Ino) (bn n cnt : Nat) :
         omega
     · simp only [h0, if_false] at hlt hpos ⊢
       exact ih s' { ino with blks := blks' } (cnt + 1) (by omega) hpos
+
+/-! ### truncation on the tree view of M7: what is unmapped is exactly what is freed -/
+
+open GoNfsd.Model.BlockMap in
+/-- THE RUN OF `Shrink` FREES EXACTLY WHAT IT UNMAPS.  On a file whose pointer map is injective
+    and which maps nothing from block `N` on, shrinking from `N` down to `T` blocks
+      * clears exactly the positions (data blocks and index blocks) whose range starts at or
+        beyond `T` and leaves every other position its block,
+      * passes to `FreeBlock` exactly the blocks those positions pointed to — none twice, none
+        that is still mapped, none forgotten —,
+      * keeps the map injective and draws nothing from the allocator. -/
+theorem truncation_frees_exactly_what_it_unmaps (s : S) (blks : List Nat) (T N : Nat)
+    (hl : blks.length = NDIRECT + 2) (hinj : InjB s.st blks) (hN : N ≤ MAXBLKS)
+    (hemp : EmptyFrom s.st blks N) :
+    InjB (shrinkTo s blks T N).1.st (shrinkTo s blks T N).2 ∧
+    (∀ q, q.valid → ptr (shrinkTo s blks T N).1.st (shrinkTo s blks T N).2 q =
+      if T ≤ firstBn q then 0 else ptr s.st blks q) ∧
+    (∀ b, b ∈ (shrinkTo s blks T N).1.freed ↔
+      b ∈ s.freed ∨ (b ≠ 0 ∧ ∃ q, q.valid ∧ T ≤ firstBn q ∧ ptr s.st blks q = b)) ∧
+    (shrinkTo s blks T N).1.allocs = s.allocs :=
+  (shrinkTo_ok T N s blks hl hinj hN hemp).2
+
+open GoNfsd.Model.BlockMap in
+theorem firstBn_posOf (bn : Nat) : firstBn (posOf bn) = bn := by
+  unfold posOf
+  by_cases h1 : bn < NDIRECT
+  · simp only [h1, if_true, firstBn]
+  · by_cases h2 : bn - NDIRECT < NBLKBLK
+    · simp only [h1, h2, if_true, if_false, firstBn]; omega
+    · simp only [h1, h2, if_false, firstBn]
+      have := Nat.div_add_mod (bn - NDIRECT - NBLKBLK) NBLKBLK
+      omega
+
+open GoNfsd.Model.BlockMap in
+/-- the file blocks below the new size keep their disk blocks; those at or beyond it are holes -/
+theorem truncation_keeps_the_blocks_below (s : S) (blks : List Nat) (T N bn : Nat)
+    (hl : blks.length = NDIRECT + 2) (hinj : InjB s.st blks) (hN : N ≤ MAXBLKS)
+    (hemp : EmptyFrom s.st blks N) (hbn : bn < MAXBLKS) :
+    lookup (shrinkTo s blks T N).1.st (shrinkTo s blks T N).2 bn =
+      if T ≤ bn then 0 else lookup s.st blks bn := by
+  rw [lookup_eq_ptr, lookup_eq_ptr]
+  have := (shrinkTo_ok T N s blks hl hinj hN hemp).2.2.1 (posOf bn) (posOf_valid bn (by rw [MAXBLKS_eq] at hbn; exact hbn)).1
+  rw [firstBn_posOf] at this
+  exact this
+
+open GoNfsd.Model.BlockMap in
+/-- WRITE ANYTHING, THEN DELETE: from the empty file, after any sequence of block mappings (any
+    allocator that hands out no block twice, running dry at any point) followed by the run of
+    `Shrink` down to 0, the file points to nothing and EVERY block it had acquired — data, indirect,
+    double-indirect root and middle blocks — has been passed to `FreeBlock`: no block is lost. -/
+theorem write_anything_then_delete_frees_everything (allocs bns : List Nat) (hd : DistinctNZ allocs)
+    (hb : ∀ bn ∈ bns, bn < NDIRECT + NBLKBLK + NBLKBLK * NBLKBLK) :
+    let f := bmapAll { st := emptyStore, allocs := allocs } (List.replicate (NDIRECT + 2) 0) bns
+    let r := shrinkTo f.1 f.2 0 MAXBLKS
+    (∀ q, q.valid → ptr r.1.st r.2 q = 0) ∧
+    (∀ b, b ≠ 0 → (∃ q, q.valid ∧ ptr f.1.st f.2 q = b) → b ∈ r.1.freed) ∧
+    (∀ b, b ∈ r.1.freed → ∃ q, q.valid ∧ ptr f.1.st f.2 q = b) := by
+  intro f r
+  have hW := bmapAll_wf { st := emptyStore, allocs := allocs } (List.replicate (NDIRECT + 2) 0) bns (WFB_empty allocs hd) hb
+  have hemp : EmptyFrom f.1.st f.2 MAXBLKS := by
+    intro q hq hle
+    exfalso
+    rw [MAXBLKS_eq] at hle
+    cases q <;> simp only [firstBn, Pos.valid, NDIRECT, NBLKBLK] at * <;> omega
+  obtain ⟨_, _, hp, hf, _⟩ := shrinkTo_ok 0 MAXBLKS f.1 f.2 hW.len hW.inj (Nat.le_refl _) hemp
+  have hfreed0 : f.1.freed = [] := by
+    -- nothing is freed by mapping
+    have : ∀ (s : S) (blks : List Nat) (l : List Nat), s.freed = [] → (bmapAll s blks l).1.freed = [] := by
+      intro s blks l
+      induction l generalizing s blks with
+      | nil => intro h; exact h
+      | cons bn rest ih =>
+        intro h
+        simp only [bmapAll]
+        apply ih
+        -- bmap never touches `freed`
+        have hfr : ∀ (s : S) (root lvl off : Nat), (indbmap s root lvl off).1.freed = s.freed := by
+          intro s root lvl
+          induction lvl generalizing s root with
+          | zero =>
+            intro off
+            rw [indbmap0]
+            split
+            · unfold S.alloc; split <;> rfl
+            · rfl
+          | succ l ihl =>
+            intro off
+            unfold indbmap
+            by_cases hr : root = 0
+            · simp only [hr, if_true]
+              cases ha : s.alloc with
+              | mk a s1 =>
+                have hs1 : s1.freed = s.freed := by
+                  unfold S.alloc at ha
+                  split at ha <;> (cases ha; rfl)
+                simp only
+                by_cases ha0 : a = 0
+                · simp [ha0, hs1]
+                · simp only [ha0, if_false]
+                  have := ihl s1 (s1.st a (off / pow l)) (off % pow l)
+                  split <;> simp_all
+            · simp only [hr, if_false]
+              have := ihl s (s.st root (off / pow l)) (off % pow l)
+              split <;> simp_all
+        unfold bmap
+        by_cases h1 : bn < NDIRECT
+        · simp only [h1, if_true]
+          split
+          · unfold S.alloc; split <;> simp_all
+          · exact h
+        · simp only [h1, if_false]
+          split
+          · rw [hfr]; exact h
+          · rw [hfr]; exact h
+    exact this _ _ _ rfl
+  refine ⟨?_, ?_, ?_⟩
+  · intro q hq
+    rw [hp q hq]; simp
+  · intro b hb0 ⟨q, hq, hpq⟩
+    exact (hf b).2 (Or.inr ⟨hb0, q, hq, Nat.zero_le _, hpq⟩)
+  · intro b hbm
+    rcases (hf b).1 hbm with h | ⟨_, q, hq, _, hpq⟩
+    · rw [hfreed0] at h; cases h
+    · exact ⟨q, hq, hpq⟩
 
 end GoNfsd.Props.C05
